@@ -72,7 +72,7 @@ def rule_callsig(repo, rid, modules):
     res = RuleResult(rid, 'every call that resolves to one function of the package agrees with its signature: no unknown keyword, no surplus positional, no '
                      'missing required argument, no pair of arguments passed in exchanged positions', floor=1)
     for m in modules:
-        for f in repo.module(m).functions.values():
+        for f in repo.functions_view(m):
             for c in paths.calls_in(f.node):
                 g, problems = judge(repo, f, c)
                 if g is None:
